@@ -2,20 +2,30 @@
   C04 — code-shaped model of how an exception travels out of `glom()`.
 
   Mirrors glom/core.py:
-    * exception CLASSES are data: name, the rest of the MRO, and the constructor
+    * exception CLASSES are data: name, the rest of the MRO, the constructor
       `ctor : Args → Option Args` = what `cls(*args)` stores in `.args`
-      (`none`: the construction raises), and whether instances are falsy
-      (`__bool__`/`__len__`), because `glom()` ends in `if err: raise err`;
+      (`none`: the construction raises), whether instances are falsy
+      (`__bool__`/`__len__`; `glom()` ends in `if err …: raise err`), how `copy.copy`
+      rebuilds an instance (`__reduce_ex__` from `.args`, a user `__reduce__` from the
+      arguments given at construction, a user `__copy__`), whether creating a subclass
+      raises (`__init_subclass__`, metaclass) and whether `__setattr__` raises;
+    * exception OBJECTS: identity, class, `.args`, the arguments given at construction,
+      `__cause__`, `__context__`, and `_GlomError__wrapped`;
+    * the C3 linearisation (`c3merge`) of the bases `(exc_type, GlomError)` of the
+      class `GlomError.wrap` creates → `wrapMro`, `wrapClass`;
     * `GlomError.wrap`  → `wrap`      (dynamic subclass with bases
       `(exc_type, GlomError)` unless `GlomError ⊂ exc_type`; re-construct from
       `exc.args`; return the original when the rebuilt args differ or the
-      construction raises — each of the two guards is a fact read from the AST);
-    * `copy.copy(e)` of a GlomError → `pyCopy` (`__reduce_ex__`: `cls(*e.args)`,
-      then `__dict__` is copied; `TypeMatchError.__copy__` for its subclasses);
+      construction raises — each of the two guards is a fact read from the AST;
+      the `type(…)` call stands outside the `try`);
+    * `copy.copy(e)` of a GlomError → `pyCopy`;
     * `glom()`'s keyword defaulting and its two nested `try` blocks → `effDefault`,
-      `effSkip`, `glomTop`, `outer`, `handler`;
+      `effSkip`, `glomTop`, `outer`, `handler` (`_set_wrapped`, `_finalize` set attributes);
     * `_glom`'s `except Exception: …bookkeeping…; raise` → `frameG`;
-      tuple / dict / list specs and `Coalesce.glomit` → `eval`.
+      tuple / dict / list specs, `Coalesce.glomit`, `First`/`Iter` steps, the places where
+      glom converts an exception of the target's own methods (`iterate`, `T[…]`, `T.x`,
+      path access), and a callable that itself calls `glom()` with its own
+      `default` / `skip_exc` / `glom_debug` → `eval`.
 
   Everything that depends on the shape of the source is a field of `Facts`
   (filled from `Glom.Generated.C04Facts` in `Model/C04Env.lean`).
@@ -30,23 +40,40 @@ inductive AVal where
   | str (s : String)
   | bytes (hex : String)
   | obj (id : Nat)
+  | excs (id : Nat)          -- a non-empty list of exception instances (what ExceptionGroup demands), by identity
   deriving DecidableEq, Repr, Inhabited
 
 abbrev Args := List AVal
+
+/-- how `copy.copy(instance)` builds the copy -/
+inductive CopyKind where
+  | args        -- `BaseException.__reduce_ex__`: `cls(*self.args)` (then `__dict__` is copied)
+  | argsState   -- `AttributeError.__reduce__` (3.12): the state carries `.args`, which is restored after `cls(*self.args)`
+  | init        -- a user `__reduce__`: `(type(self), <the arguments given at construction>)`
+  | self_       -- a user `__copy__` returning `self`
+  | foreign     -- a user `__copy__` returning a plain `GlomError(*self.args)` (another class)
+  deriving DecidableEq, Repr
 
 structure ClassInfo where
   name : String
   bases : List String                 -- the MRO after the class itself
   ctor : Args → Option Args           -- `cls(*args).args`, `none` = raises
   falsy : Bool := false               -- `bool(instance)` is False
+  copyVia : CopyKind := .args
+  sealed : Bool := false              -- creating a subclass raises (`__init_subclass__` / metaclass)
+  frozen : Bool := false              -- `__setattr__` raises
 
 def ClassInfo.mro (c : ClassInfo) : List String := c.name :: c.bases
 
-/-- an exception object: identity, class, `.args` -/
+/-- an exception object -/
 structure ExcObj where
   id : Nat
   cls : ClassInfo
   args : Args
+  init : Args := args                 -- the arguments given at construction
+  cause : Option Nat := none          -- identity of `__cause__`
+  context : Option Nat := none        -- identity of `__context__`
+  wrapped : Option Nat := none        -- identity of `_GlomError__wrapped`
 
 def isInst (e : ExcObj) (c : String) : Bool := e.cls.mro.contains c
 
@@ -59,7 +86,7 @@ inductive DefV where
   | given (id : Nat)
   deriving DecidableEq, Repr
 
-/-- what depends on the shape of the source (regenerated on every run) -/
+/-- what depends on the shape of the source (regenerated on every run); all of it is data -/
 structure Facts where
   shapeOk : Bool                      -- every statement of the handlers was recognised, in the modelled order
   defIfSkip : Option DefV             -- `default` when absent and `'skip_exc' in kwargs`   (`none` = `_MISSING`)
@@ -72,60 +99,147 @@ structure Facts where
   copyFallback : Bool                 -- `except Exception: err = e` around `copy.copy`
   wrapArgsCheck : Bool                -- `if wrapper.args != exc.args: return exc`
   wrapFallback : Bool                 -- `except Exception: return exc` in `wrap`
+  wrapTypeInTry : Bool                -- the `type(name, bases, …)` call of `wrap` is inside that `try`
+  attrGuarded : Bool                  -- `err._set_wrapped(e)` and `err._finalize(…)` are inside a `try`
   errTestTruthy : Bool                -- `if err:` (true)  vs  `if err is not None:` (false)
   tmeCopyFixed : Bool                 -- `TypeMatchError.__copy__` builds `TypeMatchError(…)` rather than `type(self)(…)`
-  tmeClass : ClassInfo                -- the class `TypeMatchError` itself
+  tmeMro : List String                -- MRO of the class `TypeMatchError` itself
   frameCatch : List String            -- classes of `_glom`'s `except`
   coalesceSkipDefault : List String   -- `Coalesce(skip_exc=…)` default
-  excMro : String → List String       -- MRO of glom's own exception classes
+  iterCatch : List String             -- `_handle_list`: classes caught around `iterate(target)`
+  iterRaises : String                 --   … and the class raised instead
+  getitemCatch : List String          -- `_t_eval` `[`: classes turned into PathAccessError
+  getattrCatch : List String          -- `_t_eval` `.`
+  pathCatch : List String             -- `_t_eval` `P` (path segment through the registered `get`)
+  deriving DecidableEq, Repr
 
 def glomMro : List String := ["GlomError", "Exception", "BaseException", "object"]
 
-/-- C3 linearisation of `(exc_type, GlomError)` for an exception class: GlomError
+/-! ### C3 linearisation (`type.mro`) -/
+
+/-- `h` occurs in the tail of one of the lists -/
+def inTail (ls : List (List String)) (h : String) : Bool := ls.any (fun l => l.tail.contains h)
+
+/-- the first head that is in no tail -/
+def pickHead (ls : List (List String)) : List (List String) → Option String
+  | [] => none
+  | [] :: rest => pickHead ls rest
+  | (h :: _) :: rest => if inTail ls h then pickHead ls rest else some h
+
+def dropHead (h : String) : List String → List String
+  | [] => []
+  | x :: t => if x == h then t else x :: t
+
+/-- the `merge` of C3; `none` = "Cannot create a consistent method resolution order" -/
+def c3merge : Nat → List (List String) → Option (List String)
+  | 0, ls => if ls.all List.isEmpty then some [] else none
+  | n + 1, ls =>
+    if ls.all List.isEmpty then some []
+    else match pickHead ls ls with
+      | none => none
+      | some h => (c3merge n (ls.map (dropHead h))).map (h :: ·)
+
+/-- `mro(C)` for `class C(B₁, …, Bₙ)` given the MROs of the bases -/
+def linearize (name : String) (baseMros : List (List String)) : Option (List String) :=
+  (c3merge ((baseMros.map List.length).sum + baseMros.length + 1)
+    (baseMros ++ [baseMros.map (·.headD "")])).map (name :: ·)
+
+/-- the MRO, after the new class itself, of `type(name, (exc_type, GlomError), {})` -/
+def wrapMro (l : List String) : Option (List String) :=
+  c3merge (l.length + 6) [l, glomMro, [l.headD "", "GlomError"]]
+
+/-- what `wrapMro` yields for exception classes (proved in `Lemmas/C04.lean`): GlomError
     goes immediately before the first class it shares with `exc_type`'s MRO -/
 def insertGlom : List String → List String
   | [] => glomMro
   | c :: r =>
-    if c == "Exception" then "GlomError" :: c :: r
+    if c == "GlomError" then c :: r
+    else if c == "Exception" then "GlomError" :: c :: r
     else if c == "BaseException" then "GlomError" :: "Exception" :: c :: r
     else c :: insertGlom r
 
-/-- `type(f"GlomError.wrap({exc_type.__name__})", bases, {})` -/
-def wrapClass (c : ClassInfo) : ClassInfo :=
-  let wn := "GlomError.wrap(" ++ c.name ++ ")"
+def wrapName (c : ClassInfo) : String := "GlomError.wrap(" ++ c.name ++ ")"
+
+/-- `type(f"GlomError.wrap({exc_type.__name__})", bases, {…})`; `none` = the call raises -/
+def wrapClass (c : ClassInfo) : Option ClassInfo :=
   if glomMro.contains c.name then       -- issubclass(GlomError, exc_type): bases = (GlomError,)
-    { name := wn, bases := glomMro, ctor := some, falsy := false }
+    some { name := wrapName c, bases := glomMro, ctor := some }
+  else if c.sealed then none             -- exc_type refuses to be subclassed
   else                                   -- bases = (exc_type, GlomError): exc_type's constructor comes first
-    { name := wn, bases := insertGlom c.mro, ctor := c.ctor, falsy := c.falsy }
+    (wrapMro c.mro).map fun m =>
+      { name := wrapName c, bases := m, ctor := c.ctor, falsy := c.falsy, copyVia := c.copyVia,
+        sealed := c.sealed, frozen := c.frozen }
+
+def builtinCls (name : String) (bases : List String) : ClassInfo :=
+  { name := name, bases := bases, ctor := some }
+
+/-- `return ret` with `ret` unbound -/
+def unboundLocal : ExcObj :=
+  { id := 3, cls := builtinCls "UnboundLocalError" ["NameError", "Exception", "BaseException", "object"],
+    args := [.str "cannot access local variable 'ret' where it is not associated with a value"] }
+
+/-- the exception a failing re-construction raises when nothing catches it (modelled as TypeError) -/
+def ctorFailure : ExcObj :=
+  { id := 2, cls := builtinCls "TypeError" ["Exception", "BaseException", "object"], args := [] }
+
+/-- the exception a failing `type(…)` call raises (modelled as TypeError) -/
+def typeFailure : ExcObj :=
+  { id := 4, cls := builtinCls "TypeError" ["Exception", "BaseException", "object"], args := [.str "type()"] }
+
+/-- the exception a refused attribute assignment raises (modelled as AttributeError) -/
+def attrFailure : ExcObj :=
+  { id := 5, cls := builtinCls "AttributeError" ["Exception", "BaseException", "object"], args := [.str "setattr"] }
 
 /-- result of building a new exception object inside glom()'s handler -/
 inductive Built where
   | ok (e : ExcObj)
-  | raised                -- the construction raised and nothing caught it: that exception leaves glom()
+  | raised (x : ExcObj)   -- something raised and nothing caught it: `x` leaves glom()
 
 /-- `GlomError.wrap(exc)` -/
 def wrap (F : Facts) (e : ExcObj) : Built :=
-  let wc := wrapClass e.cls
-  match wc.ctor e.args with
-  | some a =>
-    if F.wrapArgsCheck && a != e.args then .ok e            -- re-creation changed the args
-    else .ok { id := e.id + 1, cls := wc, args := a }
-  | none => if F.wrapFallback then .ok e else .raised        -- maybe exception can't be re-created
+  match wrapClass e.cls with
+  | none => if F.wrapTypeInTry && F.wrapFallback then .ok e else .raised typeFailure
+  | some wc =>
+    match wc.ctor e.args with
+    | some a =>
+      if F.wrapArgsCheck && a != e.args then .ok e            -- re-creation changed the args
+      else if wc.frozen then                                   -- `wrapper.__wrapped = exc` raises, inside the try
+        (if F.wrapFallback then .ok e else .raised attrFailure)
+      else .ok { id := e.id + 1, cls := wc, args := a, init := e.args, wrapped := some e.id }
+    | none => if F.wrapFallback then .ok e else .raised ctorFailure   -- maybe exception can't be re-created
 
 def usesTmeCopy (c : ClassInfo) : Bool := c.mro.contains "TypeMatchError"
 
-/-- `copy.copy(e)`: `TypeMatchError.__copy__` for TypeMatchError and its
-    subclasses, otherwise `BaseException.__reduce_ex__` = `cls(*e.args)` followed
-    by a copy of `__dict__` (which never holds `args`).  `none` = it raised. -/
+def tmeFmt : String := "expected type {0.__name__}, not {1.__name__}"
+
+/-- the class `TypeMatchError` itself: `__init__(self, actual, expected)` stores `(FMT, expected, actual)` -/
+def tmeClass (F : Facts) : ClassInfo :=
+  { name := "TypeMatchError", bases := F.tmeMro.drop 1,
+    ctor := fun a => match a with
+      | [x, y] => some [.str tmeFmt, y, x]
+      | _ => none }
+
+def plainGlomError : ClassInfo := builtinCls "GlomError" ["Exception", "BaseException", "object"]
+
+/-- `copy.copy(e)`: a user `__copy__` / `__reduce__` when the class has one,
+    `TypeMatchError.__copy__` for TypeMatchError and its subclasses, otherwise
+    `BaseException.__reduce_ex__` = `cls(*e.args)` followed by a copy of `__dict__`
+    (which never holds `args`, `__cause__`, `__context__`).  `none` = it raised. -/
 def pyCopy (F : Facts) (e : ExcObj) : Option ExcObj :=
-  if usesTmeCopy e.cls then
-    match e.args[2]?, e.args[1]? with
-    | some a2, some a1 =>
-      let k := if F.tmeCopyFixed then F.tmeClass else e.cls
-      (k.ctor [a2, a1]).map (fun a => { id := e.id + 1, cls := k, args := a })
-    | _, _ => none                                            -- IndexError
-  else
-    (e.cls.ctor e.args).map (fun a => { id := e.id + 1, cls := e.cls, args := a })
+  match e.cls.copyVia with
+  | .self_ => some e
+  | .foreign => some { id := e.id + 1, cls := plainGlomError, args := e.args }
+  | k =>
+    if usesTmeCopy e.cls then                                   -- `cls.__copy__` is looked up before `__reduce_ex__`
+      match e.args[2]?, e.args[1]? with
+      | some a2, some a1 =>
+        let k := if F.tmeCopyFixed then tmeClass F else e.cls
+        (k.ctor [a2, a1]).map (fun a => { id := e.id + 1, cls := k, args := a, init := [a2, a1] })
+      | _, _ => none                                            -- IndexError
+    else
+      let from_ := if k == .init then e.init else e.args
+      (e.cls.ctor from_).map (fun a =>
+        { id := e.id + 1, cls := e.cls, args := if k == .argsState then e.args else a, init := from_ })
 
 structure Settings where
   default : Option Nat            -- `default=` given: identity of the object
@@ -147,18 +261,6 @@ def effSkip (F : Facts) (s : Settings) : List String :=
 
 def effDebug (F : Facts) (s : Settings) : Bool := s.debug.getD F.debugDefault
 
-def builtinCls (name : String) (bases : List String) : ClassInfo :=
-  { name := name, bases := bases, ctor := some }
-
-/-- `return ret` with `ret` unbound -/
-def unboundLocal : ExcObj :=
-  { id := 3, cls := builtinCls "UnboundLocalError" ["NameError", "Exception", "BaseException", "object"],
-    args := [.str "cannot access local variable 'ret' where it is not associated with a value"] }
-
-/-- the exception a failing re-construction raises when nothing catches it (modelled as TypeError) -/
-def ctorFailure : ExcObj :=
-  { id := 2, cls := builtinCls "TypeError" ["Exception", "BaseException", "object"], args := [] }
-
 inductive Res where
   | value                   -- the computed result
   | dflt (d : DefV)         -- the object `default` is bound to
@@ -169,20 +271,28 @@ inductive Res where
 def copyBranch (F : Facts) (e : ExcObj) : Built :=
   match pyCopy F e with
   | some c => .ok (if F.copyArgsCheck && c.args != e.args then e else c)
-  | none => if F.copyFallback then .ok e else .raised
+  | none => if F.copyFallback then .ok e else .raised ctorFailure
 
 /-- body of the outer `except Exception as e:` -/
 def handler (F : Facts) (s : Settings) (e : ExcObj) : Res :=
   if effDebug F s then .exc e                                  -- if glom_debug: raise
   else
     let err : Built :=
-      if isInst e "GlomError" then copyBranch F e          -- copy.copy(e), guarded
+      if isInst e "GlomError" then
+        match copyBranch F e with                              -- copy.copy(e), guarded
+        | .ok err =>                                           -- err._set_wrapped(e)
+          if isInst err "GlomError" then
+            if err.cls.frozen then (if F.attrGuarded then .ok e else .raised attrFailure)
+            else .ok { err with wrapped := some e.id }
+          else .raised attrFailure                             -- the copy has no `_set_wrapped`
+        | r => r
       else wrap F e                                            -- GlomError.wrap(e)
     match err with
-    | .raised => .exc ctorFailure
+    | .raised x => .exc x
     | .ok err =>
-      if isInst err "GlomError" then                           -- err._finalize(...)
-        if F.errTestTruthy && err.cls.falsy then .exc unboundLocal   -- `if err:` is False, `return ret`
+      if isInst err "GlomError" then                           -- err._finalize(...): sets attributes
+        if err.cls.frozen then (if F.attrGuarded then .exc e else .exc attrFailure)
+        else if F.errTestTruthy && err.cls.falsy then .exc unboundLocal   -- `if err:` is False, `return ret`
         else .exc err                                          -- raise err
       else .exc e                                              -- wrapping failed: raise
 
@@ -207,57 +317,73 @@ def glomTop (F : Facts) (s : Settings) (b : Body) : Res :=
 
 /-! ### where the fault originates: evaluation of nested specs -/
 
-/-- the specs of the correspondence: leaves are user callables (one of them
-    raises the prepared exception object) or specs on which glom itself fails -/
+/-- the places where glom calls a method of the TARGET (or a registered handler) inside a
+    `try` and raises an error of its own for the classes the `except` names -/
+inductive Conv where
+  | iter        -- `_handle_list`: `iterate(target)`
+  | getitem     -- `T[k]`
+  | getattr     -- `T.k`
+  | path        -- a path segment: the registered `get`
+  deriving DecidableEq, Repr
+
+def Facts.convCatch (F : Facts) : Conv → List String
+  | .iter => F.iterCatch
+  | .getitem => F.getitemCatch
+  | .getattr => F.getattrCatch
+  | .path => F.pathCatch
+
+def Facts.convRaises (F : Facts) : Conv → String
+  | .iter => F.iterRaises
+  | _ => "PathAccessError"
+
+/-- the specs of the correspondence: leaves are user code (one of them raises the prepared
+    exception object) or specs on which glom itself fails -/
 inductive Sp where
   | ok                                  -- a callable that returns
-  | fault                               -- the callable that raises the prepared exception
+  | fault                               -- user code that raises the prepared exception (a callable spec, the function of
+                                        --   `Call` / `Invoke` / `T(…)`, a `default_factory`, …)
+  | faultConv (k : Conv)                -- a method of the target raises the prepared exception inside one of glom's `try` blocks
   | badPath                             -- a path glom cannot access: PathAccessError
   | badMatch                            -- `Match(int)` on a list: TypeMatchError
   | tup (xs : List Sp)
   | dct (xs : List Sp)
   | lst (x : Sp)                        -- `[x]` over a two-element target
-  | frame (x : Sp)                      -- `Spec(x)`
-  | first (x : Sp)                      -- `First(x)` / `Iter().first(x)` as a tuple step: `x` is the key, run on the items
+  | frame (x : Sp)                      -- `Spec(x)`, `Auto(x)`, `Pipe(x)`, `Ref`, `Call`/`Invoke` with `x` as an argument spec, …
+  | first (x : Sp)                      -- `First(x)` / `Iter().first(x)` / `Iter().map(x)` / `.filter(x)` / `__next__`: run on
+                                        --   the items, below Python's iterator protocol
   | coal (xs : List Sp) (skip : Option (List String)) (dflt : Bool)
+  | nest (x : Sp) (s : Settings)        -- a callable that returns `glom(target, x, **s)` (or `Spec(x).glom`, `Glommer().glom`)
   deriving Repr
-
-/-- which exception object: the prepared one, or one glom created -/
-inductive Origin where
-  | injected
-  | internal (cls : String)
-  deriving DecidableEq, Repr
 
 inductive Outc where
   | val
-  | exc (o : Origin)
-  deriving DecidableEq, Repr
+  | exc (e : ExcObj)
 
 structure EvalEnv where
   F : Facts
-  injMro : List String        -- MRO of the prepared exception's class
+  inj : ExcObj                          -- the prepared exception object
+  internal : String → ExcObj            -- the error object glom creates, by class (args are not modelled: given)
 
-def EvalEnv.mroOf (E : EvalEnv) : Origin → List String
-  | .injected => E.injMro
-  | .internal c => E.F.excMro c
-
-def EvalEnv.caught (E : EvalEnv) (o : Origin) (classes : List String) : Bool :=
-  classes.any (fun c => (E.mroOf o).contains c)
+def toBody : Outc → Body
+  | .val => .val
+  | .exc e => .exc e
 
 /-- `_glom`'s `except Exception as e: …record CUR_ERROR / CHILD_ERRORS…; raise`:
     whether or not the clause catches it, the same object continues -/
 def frameG (E : EvalEnv) (o : Outc) : Outc :=
   match o with
   | .val => .val
-  | .exc x => if E.caught x E.F.frameCatch then .exc x else .exc x
+  | .exc x => if matchesAny x E.F.frameCatch then .exc x else .exc x
 
 mutual
 /-- `_glom(target, spec, scope)` -/
 def eval (E : EvalEnv) : Sp → Outc
   | .ok => frameG E .val
-  | .fault => frameG E (.exc .injected)
-  | .badPath => frameG E (.exc (.internal "PathAccessError"))
-  | .badMatch => frameG E (.exc (.internal "TypeMatchError"))
+  | .fault => frameG E (.exc E.inj)
+  | .faultConv k => frameG E (if matchesAny E.inj (E.F.convCatch k) then .exc (E.internal (E.F.convRaises k))
+                              else .exc E.inj)
+  | .badPath => frameG E (.exc (E.internal "PathAccessError"))
+  | .badMatch => frameG E (.exc (E.internal "TypeMatchError"))
   | .tup xs => frameG E (evalSeq E xs)
   | .dct xs => frameG E (evalSeq E xs)
   | .lst x => frameG E (match eval E x with          -- first item
@@ -266,9 +392,13 @@ def eval (E : EvalEnv) : Sp → Outc
   | .frame x => frameG E (eval E x)
   | .first x => frameG E (match eval E x with   -- `next(filter(key, items), default)`, key = `Spec(x).glom(item, scope=S)`
       | .val => .val
-      | .exc o => if E.caught o ["StopIteration"] then .val   -- iterator protocol: `next` takes it for exhaustion
+      | .exc o => if matchesAny o ["StopIteration"] then .val   -- iterator protocol: taken for exhaustion
                   else .exc o)
   | .coal xs skip dflt => frameG E (evalCoal E xs (skip.getD E.F.coalesceSkipDefault) dflt)
+  | .nest x s => frameG E (match glomTop E.F s (toBody (eval E x)) with
+      | .value => .val
+      | .dflt _ => .val
+      | .exc out => .exc out)
 /-- the `for subspec in spec` loops of `_handle_tuple` / `_handle_dict` -/
 def evalSeq (E : EvalEnv) : List Sp → Outc
   | [] => .val
@@ -277,10 +407,10 @@ def evalSeq (E : EvalEnv) : List Sp → Outc
     | .exc o => .exc o
 /-- `Coalesce.glomit`: `except self.skip_exc: continue`, `else: default / raise CoalesceError` -/
 def evalCoal (E : EvalEnv) : List Sp → List String → Bool → Outc
-  | [], _, dflt => if dflt then .val else .exc (.internal "CoalesceError")
+  | [], _, dflt => if dflt then .val else .exc (E.internal "CoalesceError")
   | x :: r, sk, dflt => match eval E x with
     | .val => .val
-    | .exc o => if E.caught o sk then evalCoal E r sk dflt else .exc o
+    | .exc o => if matchesAny o sk then evalCoal E r sk dflt else .exc o
 end
 
 end Glom.C04
